@@ -231,6 +231,13 @@ CLAIMS = {
             "the edit scripts and the matching of changed interfaces (runtime); the same set of changed interfaces in "
             "both directions",
             "§8.6 (added after the design: C11 was first declared not applicable)"),
+    "C13": ("control-dependence rule over the stores into the atoms of corpus_diff::has_incompatible_changes",
+            "no counter that decides the INCOMPATIBLE bit is computed under the report-mode dependent filter "
+            "diff::is_filtered_out(); two atoms are (recorded, replayed findings: a vtable change that the default mode "
+            "filters as redundant loses the bit that --leaf-changes-only sets)",
+            "agreement of the CHANGE bit (two different predicates over different counters: leaf-node marking, runtime); "
+            "the impacted-interfaces clause",
+            "§8.6 (added after the design: C13 was first declared not applicable)"),
     "C41": ("finite-domain abstract interpretation of string_begins_with / string_ends_with (worlds over emptiness and "
             "length order), structural trim rule for split_string, mirror-invariance of every condition of "
             "decl_names_equal under exchanging its arguments (canonical forms)",
@@ -276,7 +283,6 @@ CLAIMS = {
 }
 
 NOT_APPLICABLE = {
-    "C13": "equality of two differently computed runtime counters (leaf vs default reporter); the shared INCOMPAT bit is decided under C08",
     "C15": "values decoded from DWARF by elfutils and interpreted by the reader; the oracle is a compiler, nothing static bounds it",
     "C16": "values decoded from DWARF (signatures) against source; runtime oracle",
     "C17": "partition between symtab and DWARF-attached symbols is a runtime association; a shape proxy would be a frozen fragment",
